@@ -38,7 +38,7 @@ def save_corpus(prop, seed):
     if not isinstance(r, dict) or "ops" not in r or not (0 < len(r["ops"]) <= 700):
         return
     ops = [o.split(" ", 1)[1] if o.startswith("#") else o for o in r["ops"]]
-    if any(not o or o[0] not in "UMTNLXS" for o in ops):
+    if any(not o or o[0] not in "UMTNLXSP" for o in ops):
         return
     os.makedirs(os.path.dirname(dst), exist_ok=True)
     json.dump({"origin": "seed " + seed, "cfg": r.get("cfg"), "ops": ops}, open(dst, "w"))
